@@ -32,7 +32,11 @@ def _sel_nest(s):
     return s.Select(lambda e: e.jets().Select(lambda j: j.pt()))
 
 
-_CALLSITES = {("Select", "lambda e: e.jets().Select(lambda j: j.pt())"): _sel_nest, ("Select", "lambda e: e.met()"): _sel_met, ("Where", "lambda e: e.met() > 1"): _where_cut,
+def _sel_kw(s):
+    return s.Select(lambda e: e.met(a=e.met()))
+
+
+_CALLSITES = {("Select", "lambda e: e.met(a=e.met())"): _sel_kw, ("Select", "lambda e: e.jets().Select(lambda j: j.pt())"): _sel_nest, ("Select", "lambda e: e.met()"): _sel_met, ("Where", "lambda e: e.met() > 1"): _where_cut,
               ("SelectMany", "lambda e: e.jets()"): _selmany_jets}
 _SHARED_AST = {}
 
@@ -264,7 +268,8 @@ class History:
 
     def _do(self, a, step):
         act = a["act"]
-        how = (self.tid + step) % 3
+        # supply rotates str / ast / callable with the step; every 4th history hands over (shared) ast objects throughout
+        how = 1 if self.tid % 4 == 0 else (self.tid + step) % 3
         if act == "NewDataset":
             self.nds += 1
             typed = a["op"] == "Evt"
